@@ -192,6 +192,72 @@ theorem Rel.touch {st : State} {a : AState} (h : Rel st a) (s : Cls) : Rel (touc
       · exact h.ids_lt
       · exact h.ids_sorted
 
+/-- a class that carries no hook object gets a new empty one while a class of its `__mro__` carries one -/
+theorem Rel.create {st : State} {a : AState} (h : Rel st a) {c k : Cls} (hnone : st.own c = none)
+    (hk_mem : k ∈ a.mro c) (hk_own : (st.own k).isSome) :
+    Rel { st with own := fun x => if x = c then some {} else st.own x } a := by
+  constructor
+  · exact h.mro_eq
+  · exact h.next_eq
+  · exact h.ok
+  · intro x hx
+    by_cases hxs : x = c
+    · subst hxs
+      have := h.own_vis k hk_own
+      simp only [avisible, List.any_eq_true] at this ⊢
+      obtain ⟨j, hj, hh⟩ := this
+      exact ⟨j, h.ok.closed x k hk_mem j hj, hh⟩
+    · simp only [hxs, if_false] at hx; exact h.own_vis x hx
+  · intro x hx
+    by_cases hxs : x = c
+    · simp [hxs]
+    · simp only [hxs, if_false]; exact h.hook_own x hx
+  · intro x w t
+    by_cases hxs : x = c
+    · subst hxs
+      rw [← h.stores x w t, storeOf_none hnone]
+      simp [storeOf, store_empty]
+    · rw [← h.stores x w t]; simp [storeOf, hxs]
+  · exact h.ids_lt
+  · exact h.ids_sorted
+
+/-- the hook object `viaLookup` finds belongs to a class of the `__mro__` that carries one -/
+theorem viaLookup_some {st : State} {v : Via} {c s : Cls} (h : viaLookup st v c = some s) :
+    s ∈ st.mro c ∧ (st.own s).isSome := by
+  cases v with
+  | super k =>
+    simp only [viaLookup] at h
+    refine ⟨?_, List.find?_some (p := fun j => (st.own j).isSome) h⟩
+    have hm := List.mem_of_find?_eq_some h
+    exact (List.dropWhile_sublist _).subset (List.mem_of_mem_tail hm)
+  | dict s' =>
+    simp only [viaLookup] at h
+    split at h
+    · rename_i hc
+      cases h
+      simp only [Bool.and_eq_true, List.contains_iff_mem] at hc
+      exact hc
+    · cases h
+
+/-- **the form of the source the simulation needs**: asked with another owner, `Hook.__get__` uses the hook object that
+    class carries already.  Decided by evaluation of the GENERATED fact (`Gen.C01.Hooks.getOwnerReuse`, read from the class-level
+    part of `Hook.__get__` on every run): with the other form - a new hook object every time - this lemma, and every theorem of
+    C01 that rests on the simulation, fails to build (and rightly so: `new_hook_for_other_owner_forgets_registrations`). -/
+theorem ownerReuse_gen : ownerReuse = true := rfl
+
+/-- the hook object of a class of `c.__mro__` asked for `c` (`super(K, x).h`, an explicit descriptor call): in the reusing
+    form nothing changes for a class that carries a hook object, and a class that carries none gets an empty one - exactly
+    what plain attribute lookup does -/
+theorem Rel.askAs {st : State} {a : AState} (h : Rel st a) {s c : Cls} (hs : s ∈ a.mro c) (ho : (st.own s).isSome) :
+    Rel (askAs true st s c) a := by
+  unfold Hooks.askAs
+  by_cases e : s = c
+  · simp only [e, if_true]; exact h
+  · simp only [e, if_false, Bool.true_and]
+    cases hc : st.own c with
+    | some o => simp only [Option.isSome_some, if_true]; exact h
+    | none => simp only [Option.isSome_none, Bool.false_eq_true, if_false]; exact h.create hc hs ho
+
 /-- after the access through `c` the class carries an own hook object exactly when the hook is visible for it -/
 theorem Rel.touch_own {st : State} {a : AState} (h : Rel st a) (c : Cls) :
     ((Hooks.touch st c).own c).isSome = avisible a c := by
@@ -313,18 +379,34 @@ theorem eraseId_eq_filter (l : List Reg) (id : Nat) (hs : l.Pairwise (fun r1 r2 
 
 theorem astep_eta (a : AState) : ({ a with log := a.log } : AState) = a := rfl
 
-theorem Rel.step {st : State} {a : AState} (h : Rel st a) (op : Op) : Rel (Hooks.step st op) (astep a op) := by
+/-- every operation of the machine in the REUSING form preserves the relation -/
+theorem Rel.stepWith_true {st : State} {a : AState} (h : Rel st a) (op : Op) :
+    Rel (Hooks.stepWith true st op) (astep a op) := by
   cases op with
   | touchClass c => exact h.touch c
   | touchInst c => exact h.touch c
   | readFns c =>
-    simp only [Hooks.step, astep, functionsOf]
+    simp only [Hooks.stepWith, astep, functionsOf]
     split
     · exact (walkAll_rel _ implTiers (h.touch c)).1
     · exact h.touch c
   | read c => exact Rel.foldTouchAll _ (h.touchAll c)
+  | touchVia v c =>
+    simp only [Hooks.stepWith, astep]
+    cases hl : viaLookup st v c with
+    | none => exact h
+    | some s =>
+      obtain ⟨hm, ho⟩ := viaLookup_some hl
+      exact h.askAs (h.mro_eq ▸ hm) ho
+  | readVia v c =>
+    simp only [Hooks.stepWith, astep]
+    cases hl : viaLookup st v c with
+    | none => exact h
+    | some s =>
+      obtain ⟨hm, ho⟩ := viaLookup_some hl
+      exact Rel.foldTouchAll _ ((h.askAs (h.mro_eq ▸ hm) ho).touchAll c)
   | defClass c m hook =>
-    simp only [Hooks.step, astep, h.mro_eq]
+    simp only [Hooks.stepWith, astep, h.mro_eq]
     by_cases hok : classOk a.mro c m = true
     · simp only [hok, if_true]
       obtain ⟨hc, hh, hn, ht⟩ := classOk_iff hok
@@ -373,7 +455,7 @@ theorem Rel.step {st : State} {a : AState} (h : Rel st a) (op : Op) : Rel (Hooks
       · exact h.ids_sorted
     · simp only [hok]; exact h
   | extension c =>
-    simp only [Hooks.step, astep, h.mro_eq]
+    simp only [Hooks.stepWith, astep, h.mro_eq]
     by_cases hc : a.mro c = []
     · simp [hc]; exact h
     · have hne : (a.mro c != []) = true := by simp [hc]
@@ -429,7 +511,7 @@ theorem Rel.step {st : State} {a : AState} (h : Rel st a) (op : Op) : Rel (Hooks
   | add c t w b =>
     have h1 := h.touch c
     have hown := h.touch_own c
-    simp only [Hooks.step, astep]
+    simp only [Hooks.stepWith, astep]
     cases ho : (Hooks.touch st c).own c with
     | none =>
       have : avisible a c = false := by rw [← hown, ho]; rfl
@@ -489,7 +571,7 @@ theorem Rel.step {st : State} {a : AState} (h : Rel st a) (op : Op) : Rel (Hooks
         exact h.ids_lt r1 hr1
   | remove c id =>
     have h1 := h.touch c
-    simp only [Hooks.step, astep]
+    simp only [Hooks.stepWith, astep]
     cases ho : (Hooks.touch st c).own c with
     | none =>
       simp only
@@ -540,6 +622,26 @@ theorem Rel.step {st : State} {a : AState} (h : Rel st a) (op : Op) : Rel (Hooks
         exact h.ids_lt r (List.mem_filter.1 hr).1
       · exact h.ids_sorted.filter _
 
+/-- the machine instantiated with the flag read from the source is the reusing one -/
+theorem step_eq (st : State) (op : Op) : Hooks.step st op = Hooks.stepWith true st op := by
+  rw [Hooks.step, ownerReuse_gen]
+
+theorem Rel.step {st : State} {a : AState} (h : Rel st a) (op : Op) : Rel (Hooks.step st op) (astep a op) := by
+  rw [step_eq]; exact h.stepWith_true op
+
+theorem run_eq (ops : List Op) : run ops = runWith true ops := by
+  have : Hooks.step = Hooks.stepWith true := by funext st op; exact step_eq st op
+  rw [run, runWith, this]
+
+theorem rel_foldlWith (ops : List Op) : ∀ {st : State} {a : AState}, Rel st a →
+    Rel (ops.foldl (Hooks.stepWith true) st) (ops.foldl astep a) := by
+  induction ops with
+  | nil => intro st a h; exact h
+  | cons op ops ih => intro st a h; exact ih (h.stepWith_true op)
+
+/-- the simulation for the machine in the reusing form - independent of what the source says -/
+theorem rel_runWith_true (ops : List Op) : Rel (runWith true ops) (arun ops) := rel_foldlWith ops rel_init
+
 theorem rel_foldl (ops : List Op) : ∀ {st : State} {a : AState}, Rel st a → Rel (ops.foldl Hooks.step st) (ops.foldl astep a) := by
   induction ops with
   | nil => intro st a h; exact h
@@ -569,6 +671,8 @@ theorem astep_log (a : AState) (op : Op) :
   | touchInst c => exact ⟨Nat.le_refl _, fun r hr => Or.inl hr⟩
   | readFns c => exact ⟨Nat.le_refl _, fun r hr => Or.inl hr⟩
   | read c => exact ⟨Nat.le_refl _, fun r hr => Or.inl hr⟩
+  | touchVia v c => exact ⟨Nat.le_refl _, fun r hr => Or.inl hr⟩
+  | readVia v c => exact ⟨Nat.le_refl _, fun r hr => Or.inl hr⟩
 
 theorem afoldl_log (ops : List Op) : ∀ (a : AState),
     a.next ≤ (ops.foldl astep a).next ∧ ∀ r ∈ (ops.foldl astep a).log, r ∈ a.log ∨ a.next ≤ r.hf.id := by
